@@ -39,6 +39,46 @@ class Ctx:
         return self.tier == "thorough"
 
 
+THRESHOLD_ALLOW = {
+    ("Ranking.__step_element_incomplete", "alea == 5"), ("Ranking.__step_element_incomplete", "alea == 4"),
+    ("Ranking.__step_element_complete", "alea == 4"),
+    ("ScoringScheme.__init__", "len(penalties[0]) != 6"), ("ScoringScheme.__init__", "len(penalties[1]) != 6"),
+}
+
+
+def anchor_files(prop: str):
+    try:
+        with open(os.path.join(VERIF, "properties.jsonl"), "r", encoding="utf-8") as fh:
+            for line in fh:
+                rec = json.loads(line)
+                if rec.get("id") == prop:
+                    return list(rec.get("anchors", {}).get("files", []))
+    except OSError:
+        pass
+    return []
+
+
+def bound_guard(prop: str, proj: Project):
+    """Several rules decide a clause on all inputs up to a bound and argue that larger inputs add no new case. A branch
+    on a numeric threshold beyond those bounds (a fast path for big inputs, a special case for size >= 5 ...) in the
+    property's anchored files invalidates that argument: the check then says so instead of passing."""
+    import ast
+    from .loader import src
+    files = set(anchor_files(prop))
+    for f in proj.all_functions():
+        if f.module.relpath not in files:
+            continue
+        for n in ast.walk(f.node):
+            if isinstance(n, ast.Compare):
+                parts = [n.left] + list(n.comparators)
+                consts = [x.value for x in parts if isinstance(x, ast.Constant) and isinstance(x.value, (int, float))
+                          and not isinstance(x.value, bool)]
+                if any(abs(c) >= 4 for c in consts) and (f.short, src(n)) not in THRESHOLD_ALLOW:
+                    raise AnalysisError(f"{f.loc(n)} {f.short}: comparison `{src(n)}` against a numeric threshold beyond the "
+                                        f"bounds this check explores - the bounded rules cannot vouch for inputs on the "
+                                        f"other side of it")
+
+
 def run_rules(prop: str, proj: Project, tier: str, seed: int) -> Result:
     mod = importlib.import_module(f"csa.rules.{prop}")
     ctx = Ctx(proj, tier, seed)
@@ -48,6 +88,8 @@ def run_rules(prop: str, proj: Project, tier: str, seed: int) -> Result:
         if n < floor and not res.violations:      # a reported violation is a verdict; floors guard silent passes
             raise AnalysisError(f"rule {rule} matched {n} instance(s), fewer than the {floor} confirmed by hand: "
                                 f"the rule no longer sees the code it was written for")
+    if not res.violations:
+        bound_guard(prop, proj)     # a clean verdict must not rest on a bound the code branches beyond
     return res
 
 
